@@ -30,6 +30,14 @@ NAME_RELATIONS = [
     (("SMA", dict(period=2)), ("SMA", dict(period=2, input_value="high", name_suffix="h"))),
     (("STDEVTHRES", dict(period=2)), ("STDEV", dict(period=2))),
     (("STOCH", dict(period=2, slow_period=2, smoothing_k=2)), ("SMA", dict(period=2))),
+    # one name a prefix of the other AND the longer-named one keeps running state in helper series
+    (("RSI", dict(period=2)), ("RSI", dict(period=2, name_suffix="b"))),
+    (("RSI", dict(period=2, name_suffix="b")), ("RSI", dict(period=2))),
+    (("STDEV", dict(period=2)), ("STDEV", dict(period=2, name_suffix="b"))),
+    (("VWAP", dict()), ("VWAP", dict(name_suffix="b"))),
+    (("Supertrend", dict(period=2)), ("Supertrend", dict(period=2, multiplier=1.5, name_suffix="b"))),
+    (("ATR", dict(period=2)), ("ATR", dict(period=2, name_suffix="b"))),
+    (("MACD", dict(fast_period=2, slow_period=3, signal_period=2)), ("MACD", dict(fast_period=2, slow_period=3, signal_period=2, input_value="high", name_suffix="h"))),
 ]
 
 
@@ -55,7 +63,7 @@ def obligations(tier):
             obs.append(Ob(f"A={spec_name(('ind', a, akw))} B={spec_name(('ind', b, bkw))}/n={n}", dict(A=[a, akw], B=[b, bkw], n=n), CFG,
                           weight=n * (10 if (ha or hb) else 1), budget_s=600 if tier == "quick" else 3600, max_paths=50000, selfcheck=True))
     for (a, akw), (b, bkw) in NAME_RELATIONS:
-        n = 6
+        n = 6 if not ({a, b} & {"RSI", "Supertrend"}) else 4
         obs.append(Ob(f"names: A={spec_name(('ind', a, akw))} B={spec_name(('ind', b, bkw))}/n={n}", dict(A=[a, akw], B=[b, bkw], n=n), CFG, weight=50, budget_s=900))
     # both members on the same collapsing timeframe: they share one candle manager and one candle list
     shared = [(("SMA", dict(period=2)), ("EMA", dict(period=2))), (("EMA", dict(period=2)), ("SMA", dict(period=2))), (("ATR", dict(period=2)), ("BBANDS", dict(period=2))),
@@ -137,7 +145,7 @@ def run(ctx, P):
 
 
 META = dict(
-    bounds=dict(quick="all ordered pairs of the non-branching catalogue indicators, each value-branching one (RSI, ADX, Aroon, ...) against a rotating fifth of the others in both roles (smallest periods), plus 16 pairs with a name relation and 18 pairs sharing (or not) a collapsing timeframe T2/T3; n = warm-up+2..3 candles; both registration orders; purge / recalculate / remove_indicator / add_indicator aimed at A",
+    bounds=dict(quick="all ordered pairs of the non-branching catalogue indicators, each value-branching one (RSI, ADX, Aroon, ...) against a rotating fifth of the others in both roles (smallest periods), plus 23 pairs with a name relation (prefix names, helper default names, prefix names of helper-owning indicators) and 18 pairs sharing (or not) a collapsing timeframe T2/T3; n = warm-up+2..3 candles; both registration orders; purge / recalculate / remove_indicator / add_indicator aimed at A",
                 thorough="adds branching x branching pairs (except ADX/Aroon) and period-3 variants"),
     stubs=["exact real arithmetic, uninterpreted rounding and products"],
     assumptions=["pairs have distinct top-level names and neither takes the other as input"],
